@@ -99,7 +99,7 @@ func checkC29(c *vlib.Ctx) {
 	}
 
 	batches := c.N(16, 64)
-	per := c.N(30, 1200)
+	per := c.N(30, 150)
 	exe, err := os.Executable()
 	if err != nil {
 		panic(err)
